@@ -17,8 +17,10 @@ def dimensionality(rep, M, rid):
 
 
 def distances(rep, M, rid):
+    from .. import symrules as _SRm
     c10.r10_1(rep, M, rid)
     c10.r10_5(rep, M, rid)
+    _SRm.module_state(rep, M, rid)
 
 
 def frames(rep, M, rid):
